@@ -30,7 +30,7 @@ pub fn false_claim(c: &ClaimData, other_type: bool) -> ClaimData {
     }
 }
 
-fn with_disclosed<S: ShortGroupSignatureScheme>(schema: &PresentationSchema<S>, sig_id: &str, d: &BTreeSet<String>) -> PresentationSchema<S> {
+pub fn with_disclosed<S: ShortGroupSignatureScheme>(schema: &PresentationSchema<S>, sig_id: &str, d: &BTreeSet<String>) -> PresentationSchema<S> {
     let stmts: Vec<Statements<S>> = schema
         .statements
         .values()
@@ -64,7 +64,7 @@ fn conforms<S: ShortGroupSignatureScheme>(scn: &Scn<S>, p: &Presentation<S>, sig
     }
     for (l, c) in reported {
         let i = schema.claim_indices.get_index_of(l).unwrap();
-        if &claims[i] != c {
+        if crate::claims::claim_str(&claims[i]) != crate::claims::claim_str(c) {
             return Err(format!("label {} reported as {:?} but {:?} was signed", l, c, claims[i]));
         }
     }
@@ -316,12 +316,84 @@ fn run_suite<S: ShortGroupSignatureScheme + 'static>(em: &mut Emitter, base: &mu
     }
 }
 
+/// Several signature statements: each reported claim map must be checked against the statement whose id it is filed under
+/// (a relying party reads `disclosed_messages[statement id]`), whatever position it occupies in the object.
+fn multi_credential<S: ShortGroupSignatureScheme + 'static>(em: &mut Emitter, base: &mut Rng, suite: &str) {
+    let off = if suite == "bbs" { 0 } else { 1 };
+    for k in 0..em.n(2, 16) {
+        if !em.mine(2 * k + off) {
+            continue;
+        }
+        let rng = &mut base.sub(9000 + (2 * k + off) as u64);
+        let n_creds = 2 + (k % 2);
+        let n_claims = 3 + rng.below(3) as usize;
+        // same requested labels on every credential, different signed values (names "Alice Example" / "Holder c", ages)
+        let mut d = vec!["name".to_string()];
+        if rng.coin() {
+            d.push("age".into());
+        }
+        let mix = Mix { n_creds, n_claims, age: rng.range(0, 90), disclosed: vec![d; n_creds], shuffle: k % 4 == 3, ..Default::default() };
+        let scn = Scn::<S>::build(rng, &mix);
+        let p = match scn.create() {
+            Out::Ok(p) => p,
+            _ => continue,
+        };
+        let ids: Vec<String> = scn.sig_ids.clone();
+        let maps: Vec<IndexMap<String, ClaimData>> = ids.iter().map(|i| p.disclosed_messages[i].clone()).collect();
+        let mut variants: Vec<(String, Vec<(String, IndexMap<String, ClaimData>)>)> = vec![];
+        // same association, other order of the entries (the object is a map: must stay acceptable)
+        variants.push(("entries-reordered".into(), ids.iter().cloned().zip(maps.iter().cloned()).rev().collect()));
+        // ids exchanged, maps left where they are / ids left, maps exchanged
+        let mut sw: Vec<String> = ids.clone();
+        sw.swap(0, 1);
+        variants.push(("ids-exchanged-maps-in-place".into(), sw.iter().cloned().zip(maps.iter().cloned()).collect()));
+        variants.push(("maps-exchanged-ids-in-place".into(), ids.iter().cloned().zip(sw.iter().map(|i| p.disclosed_messages[i].clone())).collect()));
+        // honest map parked under an id no statement has, another credential's map appended under the real id
+        let mut v: Vec<(String, IndexMap<String, ClaimData>)> = vec![("no-such-statement".into(), maps[0].clone())];
+        for c in 1..n_creds {
+            v.push((ids[c].clone(), maps[c].clone()));
+        }
+        v.push((ids[0].clone(), maps[1].clone()));
+        variants.push(("parked-under-foreign-id".into(), v));
+        // every statement reports the map of credential 0
+        variants.push(("one-map-for-all".into(), ids.iter().cloned().map(|i| (i, maps[0].clone())).collect()));
+        for (dev, entries) in variants {
+            let mut q = p.clone();
+            q.disclosed_messages = entries.into_iter().collect();
+            em.oracle_case(&format!("{} multi {} {}", suite, dev, scn.mix.describe()));
+            let (class, v) = plan_class(&q, &scn.schema, &scn.nonce);
+            em.op(plan_line(&scn.schema, &q, suite), class);
+            em.count(&format!("multi:{}:{}", dev, v.class()));
+            match v {
+                Out::Ok(_) => {
+                    for c in 0..n_creds {
+                        if let Err(why) = conforms(&scn, &q, c) {
+                            em.violation(&format!("c02:multi-{}", dev), format!("{}: accepted although the map filed under {} is not what that statement's issuer signed: {}", suite, ids[c], why), scn.replay(json!({"suite": suite, "deviation": dev, "presentation": serde_json::to_value(&q).unwrap_or_default()})));
+                            break;
+                        }
+                    }
+                }
+                Out::Panic(m) => em.violation(&format!("c02-panic:multi-{}", dev), format!("{}: verify panicked: {}", suite, m), scn.replay(json!({"suite": suite, "deviation": dev}))),
+                Out::Err => {
+                    if dev == "entries-reordered" {
+                        em.count("multi:reordered-entries-rejected");
+                    }
+                }
+            }
+        }
+    }
+}
+
 pub fn gen_c02(em: &mut Emitter, rng: &mut Rng) {
     em.rule = "deviating holders that own a valid credential: the real prover is driven with the verifier's transcript (challenge override) for a \
                statement that hides / adds a claim while the reported map says otherwise — substituted value (same / other claim type, with the \
                proof's inner map untouched, padded with the false or the true scalar), withheld label, extra label, swapped values; plus index-list \
                shapes (reversed, padded out of range, entry removed, value changed, hidden index added) and plain edits. oracle: accepted ⇒ reported \
-               label set = requested ∩ schema labels and every reported claim = the signed claim".into();
+               label set = requested ∩ schema labels and every reported claim = the signed claim. With 2-3 signature statements: \
+               the reported maps re-filed (entries reordered, ids exchanged, maps exchanged, honest map parked under a foreign id, one map for all): \
+               accepted ⇒ the map under each statement id is what that statement's issuer signed; plan stage vs model".into();
     run_suite::<Bbs>(em, rng, "bbs");
     run_suite::<Ps>(em, rng, "ps");
+    multi_credential::<Bbs>(em, rng, "bbs");
+    multi_credential::<Ps>(em, rng, "ps");
 }
